@@ -289,6 +289,7 @@ const prelude = `(set-option :produce-models true)
 (declare-fun sat (Str Int) Int)
 (declare-fun ssub (Str Int Int) Str)
 (declare-fun scat (Str Str) Str)
+(declare-fun chancap (Int) Int)
 (declare-datatypes ((Slice 0)) (((mk_slice (s_arr Int) (s_off Int) (s_len Int) (s_cap Int)))))
 (declare-datatypes ((Iface 0)) (((iface_nil) (iface_ptr (itag Int) (iptr Int)) (iface_box (btag Int) (bid Int)))))
 (declare-fun streq (Str Str) Bool)
